@@ -100,6 +100,10 @@ func (p *HTTPProxy) ServeHTTPWithUpstream(
 		r = r.WithContext(ctx)
 	}
 
+	// Piko control headers must reach the next hop, so never let the client
+	// mark them as hop-by-hop headers (which the reverse proxy strips).
+	keepControlHeaders(r.Header)
+
 	r.Header.Set("x-piko-forward", "true")
 
 	r = r.WithContext(context.WithValue(r.Context(), endpointContextKey, endpointID))
@@ -108,6 +112,32 @@ func (p *HTTPProxy) ServeHTTPWithUpstream(
 	r = r.WithContext(context.WithValue(r.Context(), upstreamContextKey, upstream))
 
 	p.proxy.ServeHTTP(w, r)
+}
+
+// keepControlHeaders removes any 'x-piko-' headers from the tokens listed in
+// the Connection header, otherwise the reverse proxy would treat them as
+// hop-by-hop headers and drop them (including 'x-piko-forward') from the
+// forwarded request.
+func keepControlHeaders(h http.Header) {
+	values := h.Values("Connection")
+	if len(values) == 0 {
+		return
+	}
+
+	h.Del("Connection")
+	for _, value := range values {
+		var tokens []string
+		for _, token := range strings.Split(value, ",") {
+			name := strings.ToLower(strings.TrimSpace(token))
+			if strings.HasPrefix(name, "x-piko-") {
+				continue
+			}
+			tokens = append(tokens, token)
+		}
+		if len(tokens) > 0 {
+			h.Add("Connection", strings.Join(tokens, ","))
+		}
+	}
 }
 
 func (p *HTTPProxy) dialUpstream(ctx context.Context, _, _ string) (net.Conn, error) {
